@@ -364,7 +364,7 @@ Record attempt_obs := mkAtt {
   a_tmpdel : list (name * bool);        (* destroys attempted by tryTempIPSetDeletions (name, fault injected) *)
   a_blocks : list (name * list cmd);    (* restore input grouped by writeUpdates call *)
   a_inj : option nat;                   (* index of the restore line that was made to fail *)
-  a_wfail : bool                        (* the fault was seen by Felix as a failed write of that line (else only as a bad exit status) *)
+  a_wfail : bool                        (* Felix's write of the LAST line of a_blocks failed (the process had died at that line or earlier) *)
 }.
 
 Fixpoint write_blocks (fx : bool) (bs : list (name * list cmd)) (wfail : bool) (s : st) : option (st * bool) :=
@@ -387,7 +387,10 @@ Definition check_order (complete : bool) (d1 d2 : gset name) (ns : list name) : 
   && (match l2 with [] => true | _ => bool_decide (list_to_set l1 = d1) end)
   && (negb complete || (bool_decide (list_to_set l1 = d1) && bool_decide (list_to_set l2 = d2))).
 
-(* tryUpdates.  Returns state, kernel, events, failed? *)
+(* tryUpdates.  Returns state, kernel, events, failed?
+   A fault: the restore process dies at line `a_inj` (or at a line the kernel refuses); Felix either never sees a
+   write error (all later lines are written into the void and only the exit status is bad) or its write of some
+   LATER-OR-SAME line fails (`a_wfail`: the last line of the observed script is that line). *)
 Definition try_updates (fx : bool) (a : attempt_obs) (k : kernel) (s : st) : option (st * kernel * list event * bool) :=
   let d1 := dirty1 s in
   let d2 := dirty2 s in
@@ -396,13 +399,13 @@ Definition try_updates (fx : bool) (a : attempt_obs) (k : kernel) (s : st) : opt
   else
     let ns := (a_blocks a).*1 in
     let script := concat ((a_blocks a).*2) in
-    if check_order (negb (a_wfail a)) d1 d2 ns
-       && (negb (a_wfail a) || bool_decide (a_inj a = Some (pred (length script)))) then
+    if check_order (negb (a_wfail a)) d1 d2 ns then
       match write_blocks fx (a_blocks a) (a_wfail a) s with
       | Some (s1, werr) =>
           if bool_decide (werr = a_wfail a) then
             let '(ev, k', pfail) := run_script k script O (a_inj a) in
-            if werr || pfail then
+            if werr && negb pfail then None      (* a write only fails once the process is gone *)
+            else if werr || pfail then
               Some (foldr rq_add_must s1 ns, k', ev, true)
             else Some (set_dirty (λ _, ∅) s1, k', ev, false)
           else None
